@@ -32,11 +32,12 @@ type c18Case struct {
 	csvState string // not-yet | exact | long
 	stimulus string // cancel | invalid-message | coop-bad-key | csv-callback-race
 	noise    bool   // concurrent blocks / reads during the stimulus
+	annFail  bool   // the taker is unreachable when the maker first sends opening_tx_broadcasted (that send fails)
 }
 
 // makerToAwaitPayment drives a real maker (with real watchers) against a scripted taker until the
 // announcement went out. Returns the swap id and the taker key.
-func makerToAwaitPayment(w *sim.World, rn *realNode, tk *sim.Peer, chainName, typ string, rng *mrand.Rand) (*swap.SwapId, *btcec.PrivateKey, error) {
+func makerToAwaitPayment(w *sim.World, rn *realNode, tk *sim.Peer, chainName, typ string, rng *mrand.Rand, announcementMayBeLost ...bool) (*swap.SwapId, *btcec.PrivateKey, error) {
 	m := rn.n
 	takerKey, _ := btcec.NewPrivateKey()
 	asset, network := "", ""
@@ -71,7 +72,7 @@ func makerToAwaitPayment(w *sim.World, rn *realNode, tk *sim.Peer, chainName, ty
 		}
 		w.Run()
 	}
-	if tk.Count(ref.MsgOpeningTxBroadcast) == 0 {
+	if tk.Count(ref.MsgOpeningTxBroadcast) == 0 && !(len(announcementMayBeLost) > 0 && announcementMayBeLost[0]) {
 		return nil, nil, fmt.Errorf("no announcement (state %v)", m.StoredSwap(id.String()))
 	}
 	return id, takerKey, nil
@@ -97,7 +98,17 @@ func runC18(r *Run, seed int64, c c18Case) {
 	if c.chain == "lbtc" {
 		chain = w.LBTC
 	}
-	id, _, err := makerToAwaitPayment(w, rn, tk, c.chain, c.typ, rng)
+	if c.annFail {
+		first := true
+		m.Fault = func(op string) error {
+			if op == fmt.Sprintf("msg.send:%d", ref.MsgOpeningTxBroadcast) && first {
+				first = false
+				return fmt.Errorf("peer is not connected")
+			}
+			return nil
+		}
+	}
+	id, _, err := makerToAwaitPayment(w, rn, tk, c.chain, c.typ, rng, c.annFail)
 	if err != nil {
 		r.Inconclusive("setup: " + err.Error())
 		return
@@ -173,6 +184,9 @@ func runC18(r *Run, seed int64, c c18Case) {
 	}
 	r.Eval()
 	tag := fmt.Sprintf("%s|%s|%s|csv=%s|%s", c.chain, c.typ, c.watcher, c.csvState, c.stimulus)
+	if c.annFail {
+		tag += "|first-announcement-lost"
+	}
 	if !returned {
 		// The delivery is still running. No verdict from elapsed time: dumps are taken once a second until the call
 		// returns (slow machine: carry on), or the same lock cycle shows in two consecutive dumps, or the goroutine
@@ -408,7 +422,10 @@ func TestC18(t *testing.T) {
 							if !r.Thorough() && noise && cs == "not-yet" && st != "cancel" {
 								continue
 							}
-							cases = append(cases, c18Case{ch, ty, wt, cs, st, noise})
+							cases = append(cases, c18Case{ch, ty, wt, cs, st, noise, false})
+							if !noise && wt == "rpc" && (cs != "long" || r.Thorough()) {
+								cases = append(cases, c18Case{ch, ty, wt, cs, st, noise, true})
+							}
 						}
 					}
 				}
@@ -421,7 +438,7 @@ func TestC18(t *testing.T) {
 	// takes 8 ms for a confirmation report (a taker paying), then a fresh CSV registration must be reported
 	var wcases []c20Case
 	for _, be := range []string{"bitcoind", "elementsd", "electrum"} {
-		for _, pat := range []string{"plain", "burst", "blocks-between-calls", "registered-after-the-fact", "window-edge", "confirm-late-between-calls"} {
+		for _, pat := range []string{"plain", "burst", "blocks-between-calls", "registered-after-the-fact", "window-edge", "confirm-late-between-calls", "transient-errors", "reorg"} {
 			for k := 0; k < r.N(2, 12); k++ {
 				wcases = append(wcases, c20Case{backend: be, pattern: pat, slow: 8 * time.Millisecond})
 			}
@@ -494,6 +511,16 @@ func runC19World(r *Run, seed int64) {
 		}
 	}
 	// concurrent entry points
+	var idMu sync.Mutex
+	pickID := func() *swap.SwapId {
+		idMu.Lock()
+		defer idMu.Unlock()
+		if len(ids) == 0 {
+			return nil
+		}
+		id, _ := swap.ParseSwapIdFromString(ids[lr(len(ids))])
+		return id
+	}
 	// in a third of the worlds the chains jump past the CSV depth once, so that the watchers' csv-passed callbacks
 	// run while the swaps are still being paid, cancelled and restarted
 	deep := rng.Intn(2) == 0
@@ -517,8 +544,8 @@ func runC19World(r *Run, seed int64) {
 				inc.Svc.ListSwaps()
 				inc.Svc.ListActiveSwaps()
 				inc.Svc.HasActiveSwaps()
-				if len(ids) > 0 {
-					inc.Svc.GetSwap(ids[lr(len(ids))])
+				if id := pickID(); id != nil {
+					inc.Svc.GetSwap(id.String())
 				}
 				inc.Svc.ListSwapsByPeer(b.ID)
 			})
@@ -565,11 +592,40 @@ func runC19World(r *Run, seed int64) {
 			ps.DeleteRate(context.Background(), b.ID, premium.BTC, premium.SwapOut)
 		}
 	})
+	bg(func() { // swaps come and go: the counterparty cancels one now and then, new ones are started on free channels
+		switch lr(6) {
+		case 0:
+			if id := pickID(); id != nil {
+				w.InjectMsg(b.ID, "alice", ref.MsgCancel, mustJSON(&swap.CancelMessage{SwapId: id, Message: "peer gives up"}))
+				w.InjectMsg(a.ID, "bob", ref.MsgCancel, mustJSON(&swap.CancelMessage{SwapId: id, Message: "peer gives up"}))
+			}
+		case 1, 2:
+			ini, peer := a, b
+			if lr(2) == 0 {
+				ini, peer = b, a
+			}
+			ch := fmt.Sprintf("%dx1x0", 100+lr(3))
+			chain := []string{"btc", "lbtc"}[lr(2)]
+			var sm *swap.SwapStateMachine
+			var err error
+			if lr(2) == 0 {
+				sm, err, _ = ini.SwapOut(peer.ID, chain, ch, 300_000, 100000)
+			} else {
+				sm, err, _ = ini.SwapIn(peer.ID, chain, ch, 300_000, 100000)
+			}
+			if err == nil && sm != nil {
+				idMu.Lock()
+				ids = append(ids, sm.SwapId.String())
+				idMu.Unlock()
+			}
+		}
+		time.Sleep(2 * time.Millisecond)
+	})
 	bg(func() { // hostile and duplicate messages for live swaps and fresh requests from a third party
-		if len(ids) == 0 {
+		id := pickID()
+		if id == nil {
 			return
 		}
-		id, _ := swap.ParseSwapIdFromString(ids[lr(len(ids))])
 		switch lr(4) {
 		case 0:
 			mal.Send("alice", ref.MsgCancel, &swap.CancelMessage{SwapId: id, Message: "x"})
@@ -599,6 +655,124 @@ func runC19World(r *Run, seed int64) {
 	r.Count("events_observed", len(w.Events()))
 }
 
+// runC19Watcher exercises one real watcher (rpc or Electrum) on its own: registrations keep arriving from several
+// goroutines (as swap actions do), blocks and header notifications keep arriving, and the consumer of the reports
+// answers like the swap service does (nil, "swap does not exist" for a swap that is gone, or another error).
+func runC19Watcher(r *Run, seed int64, backend string) {
+	rng := mrand.New(mrand.NewSource(seed))
+	w := sim.NewWorld(seed)
+	defer w.Close()
+	chain, confs := w.LBTC, uint32(2)
+	if backend == "bitcoind" {
+		chain, confs = w.BTC, 3
+	}
+	chain.Mine(1)
+	ctx, cancel := context.WithCancel(context.Background())
+	defer cancel()
+	var watch c20Watch
+	var el *sim.ElectrumFacade
+	if backend == "electrum" {
+		el = &sim.ElectrumFacade{C: chain}
+		ew, err := lwk.NewElectrumTxWatcher(el)
+		if err != nil {
+			r.Inconclusive(err.Error())
+			return
+		}
+		watch = ew
+	} else {
+		watch = txwatcher.NewBlockchainRpcTxWatcher(ctx, &sim.RpcFacade{C: chain}, confs)
+	}
+	var amu sync.Mutex
+	answers := mrand.New(mrand.NewSource(seed ^ 77))
+	answer := func() error {
+		amu.Lock()
+		defer amu.Unlock()
+		switch answers.Intn(4) {
+		case 0:
+			return swap.ErrSwapDoesNotExist
+		case 1:
+			return fmt.Errorf("consumer busy")
+		}
+		return nil
+	}
+	var reports atomic.Int64
+	watch.AddConfirmationCallback(func(string, string, error) error { reports.Add(1); return answer() })
+	watch.AddCsvCallback(func(string) error { reports.Add(1); return answer() })
+	if watch.StartWatchingTxs() != nil {
+		r.Inconclusive("watcher did not start")
+		return
+	}
+	// a handful of transactions to watch
+	type wtx struct {
+		id     string
+		script []byte
+	}
+	var txs []wtx
+	for i := 0; i < 4; i++ {
+		script := append([]byte{0x00, 0x20}, randBytes(32)...)
+		var hexTx string
+		if backend == "bitcoind" {
+			hexTx, _ = buildBtcTx(1, []outSpec{{Script: script, Value: 70_000}})
+		} else {
+			hexTx, _, _ = buildLiquidTx(1, []outSpec{{Script: script, Value: 70_000, Explicit: true}})
+		}
+		if tx, err := chain.AddWalletTx(hexTx, "maker", "open"); err == nil {
+			txs = append(txs, wtx{tx.ID, script})
+		}
+	}
+	if len(txs) == 0 {
+		return
+	}
+	done := make(chan struct{})
+	var wg sync.WaitGroup
+	for g := 0; g < 3; g++ {
+		wg.Add(1)
+		lr := mrand.New(mrand.NewSource(seed + int64(g)*13 + 5))
+		go func() { // registrations
+			defer wg.Done()
+			for {
+				select {
+				case <-done:
+					return
+				default:
+				}
+				t := txs[lr.Intn(len(txs))]
+				start := chain.Height()
+				if lr.Intn(2) == 0 {
+					watch.AddWaitForConfirmationTx(swap.NewSwapId().String(), t.id, 0, start, uint32(3+lr.Intn(20)), t.script)
+				} else {
+					watch.AddWaitForCsvTx(swap.NewSwapId().String(), t.id, 0, start, uint32(1+lr.Intn(5)), t.script)
+				}
+				time.Sleep(time.Duration(100+lr.Intn(600)) * time.Microsecond)
+			}
+		}()
+	}
+	wg.Add(1)
+	go func() { // blocks
+		defer wg.Done()
+		for {
+			select {
+			case <-done:
+				return
+			default:
+			}
+			chain.Mine(1)
+			if el != nil {
+				el.NotifyTip()
+			}
+			time.Sleep(time.Duration(300+rng.Intn(900)) * time.Microsecond)
+		}
+	}()
+	time.Sleep(time.Duration(r.N(80, 200)) * time.Millisecond)
+	close(done)
+	wg.Wait()
+	cancel()
+	r.Eval()
+	r.Count("watcher_worlds", 1)
+	r.Count("watcher_reports_observed", int(reports.Load()))
+	r.Seen("watcher-world/" + backend)
+}
+
 func TestC19(t *testing.T) {
 	txwatcher.VerifSetPolling(time.Millisecond, time.Millisecond)
 	swap.VerifSetRetryDur(3 * time.Millisecond)
@@ -610,8 +784,12 @@ func TestC19(t *testing.T) {
 		r.Inconclusive("not a race-detector build (run through ./check, which builds with -race)")
 		return
 	}
-	n := r.N(60, 400)
+	n := r.N(40, 400)
 	parallelDo(n, 3, func(i int) { runC19World(r, r.Seed*4261+int64(i)+1) })
+	// the real watchers on their own, with registrations, blocks and all kinds of consumer answers at once
+	parallelDo(r.N(9, 60), 3, func(i int) {
+		runC19Watcher(r, r.Seed*1277+int64(i)+1, []string{"electrum", "bitcoind", "elementsd"}[i%3])
+	})
 	// concurrent channel acquisition and peersync under the race detector as well
 	parallelDo(r.N(10, 100), 4, func(i int) { runC10Conc(r, r.Seed*977+int64(i)+1) })
 	time.Sleep(50 * time.Millisecond)
